@@ -1,6 +1,6 @@
 from .. import facts
 from ..common import Report, finish
-from ..rules import c11, c11c, capguard
+from ..rules import c11, c11c, capguard, widenlate
 
 RULE = ("(a) no explicit panic (core::panicking, Option/Result/CtOption/ConstCtOption unwrap/expect) reachable from a "
         "public operation that reports failure through its return type or is named checked_/overflowing_/"
@@ -17,6 +17,7 @@ def run(tier, t0):
         c11.run_a(f, rep, cfg)
         capguard.run(f, rep, cfg, scope="all")
         c11c.run(f, rep, cfg)
+        widenlate.run(f, rep, cfg)
     stale = {}
     for s in rep.stale:
         stale.setdefault(s["key"], set()).add(s["config"])
@@ -25,6 +26,7 @@ def run(tier, t0):
     rep.floor("panic_site_x_entry_pairs", 2400)
     rep.floor("boxed_uint_constructions", 6)
     rep.floor("caller_sized_copies", 1)
+    rep.floor("narrow_arithmetic_sites", 600)
     return finish(rep, tier, t0,
                   explanation="interprocedural label-flow (with implicit flows and immediate-guard semantics) of every "
                               "explicit panic site to the arguments of every option/result-returning public operation, "
